@@ -374,6 +374,12 @@ func c03Natural(rep *Report, worlds []*World, full bool) {
 		mustRefuse = append(mustRefuse, NewPkt("channel-0", denomUSDC, "10000", orb,
 			MemoJSON(f, `{"id":"ACTION_SWAP","attributes":`+feeAttrs(w0.Fee2.String())+`}`, feeActionJSON([]FeeSpec{{To: w0.Fee1.String(), Bps: 100}}))))
 	}
+	// which probes execute in the initial state: a refusal of one of them in a state reached by ONE environment
+	// operation is a refusal that operation caused (vacuity guard below; independent of the refusal's wording)
+	baseOK := make([]bool, len(probes))
+	for i := range probes {
+		baseOK[i] = w0.Recv(Branch(w0.Ctx), probes[i].Pkt()).Success
+	}
 	sub := NewReport(rep.Prop, rep.Tier, rep.Level)
 	x := &Explorer{Rep: sub, Prefix: alpha, Depth: depth}
 	x.OnState = func(wk *Worker, n Node, ctx sdk.Context, _ any) {
@@ -413,6 +419,12 @@ func c03Natural(rep *Report, worlds []*World, full bool) {
 				cls := classifyRefusal(r.AckErr())
 				rep.Distinct("natural-refusal:" + cls + ":" + t.Fwd.String())
 				rep.Count("refusal:"+cls, 1)
+				if len(n.Path) == 1 && baseOK[i] {
+					rep.Count("refusal-caused-by:"+alpha[n.Path[0]].Label, 1)
+				}
+				if len(n.Path) == 0 {
+					rep.Count("refusal-of-input:"+t.Fwd.String(), 1)
+				}
 				continue
 			}
 			rep.Outcome("natural-success")
@@ -430,14 +442,16 @@ func c03Natural(rep *Report, worlds []*World, full bool) {
 	for _, e := range sub.harnessErr {
 		rep.HarnessError("%s", e)
 	}
-	// vacuity guard on the NUMBER of distinct refusal classes, not on their wording
+	// vacuity guard: enough DIFFERENT natural causes of refusal were exercised — counted by the environment operation
+	// that caused the refusal and by the refused input, never by the wording of the acknowledgement (the classes
+	// "refusal:<wording>" are kept in the evidence for the reader only)
 	nCls := 0
 	for k := range rep.Counters {
-		if strings.HasPrefix(k, "refusal:") {
+		if strings.HasPrefix(k, "refusal-caused-by:") || strings.HasPrefix(k, "refusal-of-input:") {
 			nCls++
 		}
 	}
-	rep.Guard(nCls >= 6, "only %d distinct natural refusal classes observed (%v)", nCls, rep.Counters)
+	rep.Guard(nCls >= 8, "only %d distinct natural causes of refusal observed (%v)", nCls, rep.Counters)
 }
 
 func classifyRefusal(e string) string {
